@@ -11,6 +11,7 @@ them the statements were false, see the `…_superseded_witness` examples at the
 -/
 import RtcModel.Lemmas.Latch
 import RtcModel.Lemmas.LatchRace
+import RtcModel.Lemmas.LatchHistory
 import RtcModel.LatchSpec
 
 namespace RtcModel.Theorems.C18
@@ -260,6 +261,84 @@ example :
   intro h; have := h.2.2.2 ⟨⟨2, 5002⟩, 1, 20, 0, 3, 0, false⟩ (by decide) (by decide)
   revert this; decide
 
+/-! ### The table the rules are evaluated on is a summary of the packet history
+
+`LatchSpec.Documented` speaks about rows (`first_seq`, `consecutive`, `packet_count`, `has_marker`);
+`RtcModel.LatchHistory` says, independently of `observe` / `updCand`, what those rows mean in terms of
+the expected-SSRC packets received since the window was armed. -/
+
+open RtcModel.LatchHistory in
+/-- **table_is_summary_of_history**: feeding any packet history through the code's `observe`
+(what `rtpLatch` does, once per expected-SSRC packet while the window is open — see the statement of
+`commit_is_rule_winner`) yields exactly the documented summary: one row per source in order of first
+appearance, with the numerically lowest sequence number and timestamp, the latest sequence number,
+the (capped) number of packets, the length of the trailing `+1 mod 2^16` run and the marker flag. -/
+theorem table_is_summary_of_history (h : List Pkt) : observeAll h = tableOf h := by
+  induction h with
+  | nil => simp [observeAll, tableOf, srcs]
+  | cons x h ih =>
+    have hf : ∀ b, ((fun a => summary a (ofSrc h a)) b).addr = b := fun b => rfl
+    simp only [observeAll, ih, tableOf]
+    by_cases hm : x.addr ∈ srcs h
+    · rw [observe_map_mem _ _ hf _ _ _ _ (srcs_nodup h) hm]
+      simp only [srcs, hm, ↓reduceIte]
+      apply List.map_congr_left
+      intro b hb
+      rw [ofSrc_cons]
+      by_cases he : b = x.addr
+      · subst he
+        simp only [↓reduceIte]
+        have hne := ofSrc_ne_nil h x.addr hb
+        cases hl : ofSrc h x.addr with
+        | nil => exact absurd hl hne
+        | cons y rest => rw [summary_cons]
+      · have he' : ¬ x.addr = b := fun h' => he h'.symm
+        simp [he, he']
+    · rw [observe_map_not_mem _ _ hf _ _ _ _ hm]
+      simp only [srcs, hm, ↓reduceIte, List.map_append, List.map_cons, List.map_nil]
+      congr 1
+      · apply List.map_congr_left
+        intro b hb
+        rw [ofSrc_cons]
+        have : x.addr ≠ b := fun he => hm (he ▸ hb)
+        simp [this]
+      · rw [ofSrc_cons]; simp [ofSrc_nil h x.addr hm, summary_single]
+
+open RtcModel.LatchHistory in
+/-- the numeric reading of rule 2: `consecutive >= 2` holds exactly when the source's latest THREE
+packets are in sequence (the comment's prose says "two sequential packets"; the condition it gives,
+and the code, need three) -/
+theorem run_two_means_three_in_sequence (l : List Pkt) :
+    runLen l ≥ 2 ↔ ∃ x y z rest, l = x :: y :: z :: rest ∧ x.seq = wrapInc y.seq ∧ y.seq = wrapInc z.seq := by
+  match l with
+  | [] => simp [runLen]
+  | [x] => simp [runLen]
+  | [x, y] => simp [runLen, satInc, consecMax_eq]; split <;> omega
+  | x :: y :: z :: rest =>
+    simp only [runLen, satInc, consecMax_eq]
+    constructor
+    · intro h
+      refine ⟨x, y, z, rest, rfl, ?_, ?_⟩
+      · by_cases h1 : x.seq = wrapInc y.seq
+        · exact h1
+        · simp [h1] at h
+      · by_cases h2 : y.seq = wrapInc z.seq
+        · exact h2
+        · by_cases h1 : x.seq = wrapInc y.seq <;> simp [h1, h2] at h
+    · rintro ⟨x', y', z', rest', he, h1, h2⟩
+      simp at he
+      obtain ⟨rfl, rfl, rfl, rfl⟩ := he
+      simp only [h1, h2, ↓reduceIte]
+      split <;> split <;> omega
+
+open RtcModel.LatchHistory in
+/-- non-vacuity / reading check: the audit's history `B1 A100 B10 A101 B20 A102` (newest first below)
+gives the table used in the rule-order example, and `lowest` is the minimum (`lowest_le`, `lowest_mem`) -/
+example :
+    tableOf [⟨⟨1, 5001⟩, 102, 0, false⟩, ⟨⟨2, 5002⟩, 20, 0, false⟩, ⟨⟨1, 5001⟩, 101, 0, false⟩,
+             ⟨⟨2, 5002⟩, 10, 0, false⟩, ⟨⟨1, 5001⟩, 100, 0, false⟩, ⟨⟨2, 5002⟩, 1, 0, false⟩]
+      = [⟨⟨2, 5002⟩, 1, 20, 0, 3, 0, false⟩, ⟨⟨1, 5001⟩, 100, 102, 0, 3, 2, false⟩] := by decide
+
 /-! ### Commit within the configured number of probation packets -/
 
 /-- probation bookkeeping invariant: the counter is strictly below the (u8) limit -/
@@ -368,6 +447,105 @@ example :
     s.latchOn = true ∧ s.rtpLatched = false ∧ s.prob = some ⟨[], 0, 2⟩ ∧ PInv ⟨[], 0, 2⟩ ∧
     NoRearm s ops ∧ 2 - 0 ≤ legitCount s ops ∧ (run s ops).rtpLatched = true := by
   refine ⟨by decide, by decide, by decide, ⟨by decide, by decide⟩, by decide, by decide, by decide⟩
+
+/-- `set_probation_max_packets` takes an `Option<u8>` -/
+def U8Op : Op → Prop
+  | .maxp v => v ≤ 255
+  | _ => True
+
+/-- every open window satisfies the bookkeeping invariant and the configured size fits `u8` -/
+def WinOk (s : St) : Prop := s.maxPackets ≤ 255 ∧ ∀ p, s.prob = some p → PInv p
+
+/-- **window_invariant**: `PInv` (the hypothesis of `commit_within_max_packets`) holds for the window of
+EVERY state reachable from a new connection by any operation sequence — it is not an extra assumption.
+Note what "configured" means: a window keeps the size it was armed with (`enable_latch_on_rtp` keeps an
+existing window, `set_probation_max_packets` does not re-arm); `commit_within_max_packets` is about
+the window in force. -/
+theorem window_invariant (a : Addr) (m : Nat) (tcp : Bool) (hm : m ≤ 255) (ops : List Op)
+    (hops : ∀ o ∈ ops, U8Op o) : WinOk (run (init a m tcp) ops) := by
+  have hstep : ∀ (s : St) (o : Op), WinOk s → U8Op o → WinOk (step s o) := by
+    intro s o ⟨h255, hp⟩ ho
+    cases o with
+    | pkt a k =>
+      refine ⟨by cases k <;> simp [step, receive, h255], ?_⟩
+      intro p' hp'
+      by_cases hk : Legit s k
+      · cases k <;> simp [Legit] at hk
+        rename_i ssrc seq ts mk
+        by_cases hact : s.latchOn = true ∧ s.rtpLatched = false
+        · obtain ⟨hon, hl⟩ := hact
+          cases hpr : s.prob with
+          | none =>
+            have : (receive s a (.rtp ssrc seq ts mk)).prob = none := by
+              simp [receive, rtpLatch, adopt_on s a hon, hon, hl, hpr, hk]
+            simp [step, this] at hp'
+          | some p =>
+            have hi := hp p hpr
+            rcases legit_packet_progress s a ssrc seq ts mk p hon hl hpr hi.1 hi.2 hk with h | ⟨_, _, q, hq, _, hqm, hqlt⟩
+            · cases hwn : winner { p with total := satInc totalMax p.total, cands := observe p.cands a seq ts mk } with
+              | some w => simp [step, (commit_step s a ssrc seq ts mk p w hon hl hpr hk hwn).2.2] at hp'
+              | none => simp [(no_winner_step s a ssrc seq ts mk p hon hl hpr hk hwn).1] at h
+            · simp only [step, hq, Option.some.injEq] at hp'
+              subst hp'
+              exact ⟨hqlt, by rw [hqm]; exact hi.2⟩
+        · have : (receive s a (.rtp ssrc seq ts mk)).prob = s.prob := by
+            by_cases hon : s.latchOn = true
+            · have hl : s.rtpLatched = true := by
+                by_cases hl : s.rtpLatched = true
+                · exact hl
+                · exact absurd ⟨hon, by simpa using hl⟩ hact
+              simp [receive, adopt_on s a hon, rtpLatch_latched _ _ _ _ _ _ _ hl]
+            · have hoff : s.latchOn = false := by simpa using hon
+              simp [receive, rtpLatch_off _ _ _ _ _ _ _ (show (adopt s a).latchOn = false by simp [hoff])]
+          exact hp p' (by simpa [step, this] using hp')
+      · exact hp p' (by simpa [step, (nonlegit_frame s a k hk).1] using hp')
+    | enable =>
+      refine ⟨by simp only [step, enableLatch]; split <;> (try split) <;> simpa using h255, ?_⟩
+      intro p' hp'
+      simp only [step, enableLatch] at hp'
+      split at hp'
+      · rename_i hpos
+        split at hp'
+        · simp at hp'; subst hp'; exact ⟨hpos, h255⟩
+        · exact hp p' (by simpa using hp')
+      · simp at hp'
+    | reset =>
+      refine ⟨by simpa [step, resetLatch] using h255, ?_⟩
+      intro p' hp'
+      simp only [step, resetLatch, freshProb] at hp'
+      split at hp' <;> simp at hp'
+      rename_i hc; subst hp'; exact ⟨hc.2, h255⟩
+    | sig x =>
+      refine ⟨by simpa [step, setFromSignaling, resetLatch] using h255, ?_⟩
+      intro p' hp'
+      simp only [step, setFromSignaling, resetLatch, freshProb] at hp'
+      split at hp' <;> simp at hp'
+      rename_i hc; subst hp'; exact ⟨hc.2, h255⟩
+    | pair x =>
+      refine ⟨by simp only [step, setFromPair]; split <;> simpa using h255, ?_⟩
+      intro p' hp'
+      exact hp p' (by simp only [step, setFromPair] at hp'; split at hp' <;> simpa using hp')
+    | ssrc v =>
+      refine ⟨by simpa [step] using h255, ?_⟩
+      intro p' hp'
+      by_cases he : s.expected = v
+      · exact hp p' (by simpa [step, setExpectedSsrc_same s v he] using hp')
+      · simp only [step, setExpectedSsrc, he, ne_eq, not_false_eq_true, ↓reduceIte] at hp'
+        simp at hp'
+        obtain ⟨q, hq, rfl⟩ := hp'
+        have := hp q hq
+        exact ⟨by have := this.1; simp; omega, this.2⟩
+    | maxp v => exact ⟨by simpa [step, U8Op] using ho, fun p' hp' => hp p' (by simpa [step] using hp')⟩
+    | rtcpAddr x => exact ⟨by simpa [step, setRtcpAddr] using h255, fun p' hp' => hp p' (by simpa [step, setRtcpAddr] using hp')⟩
+  have hrun : ∀ (ops : List Op) (s : St), WinOk s → (∀ o ∈ ops, U8Op o) → WinOk (run s ops) := by
+    intro ops
+    induction ops with
+    | nil => intro s h _; exact h
+    | cons o os ih =>
+      intro s h ho
+      simp only [run, List.foldl_cons]
+      exact ih _ (hstep s o h (ho o (by simp))) (fun o' ho' => ho o' (by simp [ho']))
+  exact hrun ops _ ⟨by simpa [init] using hm, by intro p hp; simp [init] at hp⟩ hops
 
 /-! ### The destination only moves to legitimate sources -/
 
@@ -520,10 +698,24 @@ example (a : Addr) (m : Nat) (tcp : Bool) : Inv (enableLatch (init a m tcp)) [] 
 
 example : (run (enableLatch (init ⟨0, 0⟩ 3 false)) [.pkt ⟨1, 5001⟩ (.rtp 7 1 0 false)]).remote = ⟨1, 5001⟩ := by decide
 
-/-- declared reading (see NOTES/C18.md, propcfg assumption 2): while the latch is OPEN a
-selected-pair update moves the destination to an address that never sent RTP — in RTP mode such an
-update can be caused by an unauthenticated STUN binding request from the pair's port on another IP
-(`ice/mod.rs`); once latched the same update is refused (`latched_sticky`). -/
+/-- **move_by_pair_update_witness** (known finding `pc:move:stun-request-moved-open-destination`): clause 1
+read literally — "the RTP send address can only move to an address from which RTP carrying the expected
+SSRC was received" — is FALSE for selected-pair updates while the latch is open: the destination moves
+to the pair address, which need not be in the window. In RTP mode such an update is caused by an
+unauthenticated STUN binding request from the pair's port on another IP (`ice/mod.rs`). What does
+hold is `move_only_to_legit_source` (clause 1 for every packet-caused move; pair updates only while
+open and only to the pair address) and `latched_sticky` (refused once latched). -/
+theorem move_by_pair_update_witness :
+    ¬ (∀ (s : St) (win : List Addr) (a : Addr), Inv s win →
+        (step s (.pair a)).remote = s.remote ∨ (step s (.pair a)).remote ∈ win) := by
+  intro h
+  have := h (run (init ⟨9, 5009⟩ 6 false) [.ssrc 7, .enable]) [] ⟨3, 5009⟩
+    ⟨by decide, by
+      intro p hp c hc
+      have hp' : (run (init ⟨9, 5009⟩ 6 false) [.ssrc 7, .enable]).prob = some ⟨[], 0, 6⟩ := by decide
+      rw [hp'] at hp; simp at hp; subst hp; simp at hc⟩
+  revert this; decide
+
 example :
     let s := run (init ⟨9, 5009⟩ 6 false) [.ssrc 7, .enable]
     (step s (.pair ⟨3, 5009⟩)).remote = ⟨3, 5009⟩ ∧
@@ -586,15 +778,18 @@ each of the three latch API calls (`reset_latch`, signaling retarget, selected-p
 EVERY schedule that lets both threads finish, the final state is the state reached by running the
 two calls one after the other in one of the two orders — so every sequential theorem above
 (stickiness, legitimacy of moves, commit) also holds when the API call comes from another task
-while a packet is being received. (False before the lock-discipline `fix:`; the failing schedules
+while a packet is being received. MUTUAL EXCLUSION of the two critical sections is an ASSUMPTION built
+into `LatchRace.stepR/stepA` (a thread at `before-lock` does not move while the other section is
+open), not something this theorem proves about the code; on the real code it is OBSERVED by the race
+executor (`try_lock` probe: `race:critical-section-without-the-mutex`, `race:mutual-exclusion-violated`). (False before the lock-discipline `fix:`; the failing schedules
 were executed on the real code, see `known_findings.d/C18.json`.) -/
 theorem latch_api_serializable (s0 : St) (a : Addr) (ssrc seq ts : Nat) (m : Bool) (api : Op) (A : Crit)
     (hA : apiCrit api = some A) (hon : s0.latchOn = true) (sched : List Bool)
-    (hr : rDone (runSched (recvCrit a ssrc seq ts m) A ⟨s0, .start, .start⟩ sched).r = true)
-    (ha : aDone (runSched (recvCrit a ssrc seq ts m) A ⟨s0, .start, .start⟩ sched).a = true) :
-    (runSched (recvCrit a ssrc seq ts m) A ⟨s0, .start, .start⟩ sched).st
+    (hr : rDone (runSched (recvCrit a ssrc seq ts m) A (Sys.init s0) sched).r = true)
+    (ha : aDone (runSched (recvCrit a ssrc seq ts m) A (Sys.init s0) sched).a = true) :
+    (runSched (recvCrit a ssrc seq ts m) A (Sys.init s0) sched).st
         = step (step s0 (.pkt a (.rtp ssrc seq ts m))) api ∨
-    (runSched (recvCrit a ssrc seq ts m) A ⟨s0, .start, .start⟩ sched).st
+    (runSched (recvCrit a ssrc seq ts m) A (Sys.init s0) sched).st
         = step (step s0 api) (.pkt a (.rtp ssrc seq ts m)) := by
   have hrecv : ∀ t : St, t.latchOn = true →
       (recvCrit a ssrc seq ts m).full t = receive t a (.rtp ssrc seq ts m) := by
@@ -625,7 +820,7 @@ test and its critical section finishes, and the outcome is the api-first order (
 the receive-first order) -/
 example :
     let s0 := run (init ⟨9, 5009⟩ 6 false) [.ssrc 7, .enable]
-    let y := runSched (recvCrit ⟨1, 5001⟩ 7 10 10 true) (sigCrit ⟨4, 5004⟩) ⟨s0, .start, .start⟩
+    let y := runSched (recvCrit ⟨1, 5001⟩ 7 10 10 true) (sigCrit ⟨4, 5004⟩) (Sys.init s0)
       [true, false, false, false, false, true, true, true, true]
     rDone y.r = true ∧ aDone y.a = true ∧
     y.st = step (step s0 (.sig ⟨4, 5004⟩)) (.pkt ⟨1, 5001⟩ (.rtp 7 10 10 true)) ∧
